@@ -13,6 +13,7 @@ import (
 	dragonboat "github.com/lni/dragonboat/v4"
 	"github.com/lni/dragonboat/v4/client"
 	"github.com/lni/dragonboat/v4/config"
+	"github.com/lni/dragonboat/v4/internal/rsm"
 	"github.com/lni/dragonboat/v4/internal/tan"
 	"github.com/lni/dragonboat/v4/internal/transport"
 	tanplugin "github.com/lni/dragonboat/v4/plugin/tan"
@@ -58,6 +59,7 @@ type Cfg struct {
 	Sessions   bool // clients use registered sessions and retry
 	ReadMix    int  // per cent of client ops that are reads
 	TimeoutTicks int
+	LRUSize      int
 	LogBuf       int
 	TanLogSize   int
 	OpsPerClient int
@@ -114,6 +116,7 @@ type Sim struct {
 	orc   *oracles
 	initialMembers map[uint64]dragonboat.Target
 	nextWID uint64
+	sessRand *auxRand
 	stateSig uint64
 }
 
@@ -175,6 +178,7 @@ func drawCfg(ctx *runner.Ctx) Cfg {
 	c.OpsPerClient = p("ops", pick(s, 20, 8, 40))
 	c.TanLogSize = p("tanlog", pick(s, 0, 0, 2048, 16384))
 	c.LogBuf = p("logbuf", pick(s, 65536, 64, 4096))
+	c.LRUSize = p("lru", pick(s, 4096, 4096, 2, 3))
 	c.ClientRate = p("clientrate", pick(s, 10, 3, 30))
 	c.Pad = p("pad", pick(s, 0, 0, 40, 300))
 	if c.Hosts < 1 {
@@ -210,6 +214,7 @@ type auxRand struct {
 }
 
 func (t *auxRand) Uint64() uint64 { return t.r.Next() | 1 }
+func (t *auxRand) Int() int       { return int(t.r.Next() >> 1) }
 func (t *auxRand) Int63() int64   { return int64(t.r.Next() >> 1) }
 func (t *auxRand) Seed(int64)     {}
 
@@ -229,6 +234,14 @@ func (s *Sim) nodeHostConfig(h *Host) config.NodeHostConfig {
 				SnapshotShards: 2, CloseShards: 1},
 		},
 	}
+}
+
+// auxSource is the random source handed to client.NewSession.
+func (s *Sim) auxSource() *auxRand {
+	if s.sessRand == nil {
+		s.sessRand = &auxRand{r: choice.NewSplitMix(s.src.Aux ^ 0x5e55)}
+	}
+	return s.sessRand
 }
 
 func (s *Sim) logdbConfig() config.LogDBConfig {
@@ -436,6 +449,7 @@ func Run(ctx *runner.Ctx) *runner.Result {
 	// goroutine states must be inspected after every step
 	s.ex.AlwaysInspect = s.cfg.NotifyCommit
 	tan.VerifObsoleteHook = s.hookTanObsolete
+	rsm.LRUMaxSessionCount = uint64(s.cfg.LRUSize)
 	if s.cfg.TanLogSize > 0 {
 		tan.VerifMaxLogFileSize = int64(s.cfg.TanLogSize)
 	} else {
